@@ -261,7 +261,9 @@ Inductive sevent :=
 | EStart (t : tid) (p : pid)
 | EUnlock (t : tid)
 | EKill (p : pid)
-| ECancel (t : tid).
+| ECancel (t : tid)
+| EStop (p : pid)     (* SIGSTOP: the process's threads and heartbeats take no step until ... *)
+| ECont (p : pid).    (* ... SIGCONT *)
 
 Definition transient_label (s : state) (t : tid) : option label :=
   match cs s t with
@@ -287,13 +289,20 @@ Definition min_due (a b : option (Z * label)) : option (Z * label) :=
   | None, _ => b
   | _, None => a
   end.
-Definition next_due (s : state) : option (Z * label) :=
-  let hbs := map (fun i => match hb s i with
+Definition hb_runs (stopped : list pid) (h : hbstate) : bool :=
+  match hb_proc h with Some p => negb (mem_nat p stopped) | None => true end.
+Definition th_runs (stopped : list pid) (s : state) (t : tid) : bool := negb (mem_nat (cproc s t) stopped).
+
+Definition next_due (stopped : list pid) (s : state) : option (Z * label) :=
+  let hbs := map (fun i => if hb_runs stopped (hb s i) then
+                           match hb s i with
                            | HSleep _ _ due => Some (due, LHbWake i)
                            | HTrunc _ _ _ _ since => Some (since + eps c, LHbWrite i)   (* the gap lasts eps *)
                            | _ => None
-                           end) (seq 0 (nexti s)) in
-  let ths := map (fun t => match cs s t with CSleep _ u => Some (u, LWake t) | _ => None end) (rev (tids s)) in
+                           end else None) (seq 0 (nexti s)) in
+  let ths := map (fun t => if th_runs stopped s t then
+                           match cs s t with CSleep _ u => Some (u, LWake t) | _ => None end
+                           else None) (rev (tids s)) in
   fold_left min_due (hbs ++ ths) None.
 
 (** outcome log: (thread, code, time); codes 0 acquired, 1 context error, 2 decode error *)
@@ -316,6 +325,7 @@ Definition label_of_event (e : sevent) : label :=
   | EUnlock t => LUnlock t
   | EKill p => LKill p
   | ECancel t => LCancel t
+  | EStop _ | ECont _ => LTick 0
   end.
 
 Record sim := Sim {
@@ -323,30 +333,35 @@ Record sim := Sim {
   script : list (Z * sevent);
   cancelled : list tid;
   outlog : list (tid * Z * Z);
-  trace : list label          (* the labels taken, newest first *)
+  trace : list label;         (* the labels taken, newest first *)
+  stopped : list pid          (* processes between SIGSTOP and SIGCONT *)
 }.
 
 Definition take (m : sim) (l : label) : option sim :=
   match step (sst m) l with
-  | Some s' => Some (Sim s' (script m) (cancelled m) (outlog m ++ new_outcomes (sst m) s') (l :: trace m))
+  | Some s' => Some (Sim s' (script m) (cancelled m) (outlog m ++ new_outcomes (sst m) s') (l :: trace m) (stopped m))
   | None => None
   end.
 
 Definition sim_step (m : sim) : option sim :=
   let s := sst m in
+  let st := stopped m in
   (* 1. a cancelled context wins every select *)
-  match first_some (fun t => match cs s t with CSleep _ _ => if mem_nat t (cancelled m) then Some (LCancel t) else None | _ => None end)
+  match first_some (fun t => match cs s t with
+                             | CSleep _ _ => if mem_nat t (cancelled m) && th_runs st s t then Some (LCancel t) else None
+                             | _ => None
+                             end)
                    (rev (tids s)) with
   | Some l => take m l
   | None =>
   (* 2. steps that are due now: heartbeat writes whose gap is over, then threads *)
   match first_some (fun i => match hb s i with
-                             | HTrunc _ _ _ _ since => if since + eps c <=? now s then Some (LHbWrite i) else None
+                             | HTrunc _ _ _ _ since => if (since + eps c <=? now s) && hb_runs st (hb s i) then Some (LHbWrite i) else None
                              | _ => None
                              end) (seq 0 (nexti s)) with
   | Some l => take m l
   | None =>
-  match first_some (transient_label s) (rev (tids s)) with
+  match first_some (fun t => if th_runs st s t then transient_label s t else None) (rev (tids s)) with
   | Some l =>
       (* WriteMeta needs a clock reading later than the previous creation's: 1 ns passes *)
       match l with
@@ -355,16 +370,21 @@ Definition sim_step (m : sim) : option sim :=
       end
   | None =>
   (* 3. next instant *)
-  let due := next_due s in
+  let due := next_due st s in
   match script m, due with
   | (te, e) :: rest, _ =>
       let script_first := match due with Some (td, _) => te <=? td | None => true end in
       if script_first then
         if now s <? te then take m (LTick (te - now s))
         else
-          let m' := Sim s rest (match e with ECancel t => t :: cancelled m | _ => cancelled m end) (outlog m) (trace m) in
+          let m' := Sim s rest (match e with ECancel t => t :: cancelled m | _ => cancelled m end) (outlog m) (trace m)
+                        (match e with
+                         | EStop p => p :: st
+                         | ECont p => filter (fun q => negb (Nat.eqb q p)) st
+                         | _ => st
+                         end) in
           match e with
-          | ECancel t => Some m'                  (* takes effect at the thread's (next) select *)
+          | ECancel _ | EStop _ | ECont _ => Some m'   (* take effect at the next steps *)
           | _ => match take m' (label_of_event e) with Some m'' => Some m'' | None => Some m' end
           end
       else
